@@ -1,5 +1,6 @@
 (* C10 driver: (case ID (ITEM...) QUERY) -> "ID RESULT"
-   ITEM  = (P when src n d tgt) | (C day an ad ac total cn cd cc virt) | (I day xn xd xc yn yd yc)
+   ITEM  = (P when src n d tgt) | (C xprim xaux pprim paux an ad ac total cn cd cc virt)
+         | (I xprim xaux pprim paux xn xd xc yn yd yc)      dates are days, - when not written
          | (L src tgt D)                       a lookup made while the journal is read
    QUERY = (bal TGT D (NAME (n d c lot)...)...)        TGT = hex symbol, or - for -V
          | (balmemo TGT D (NAME (n d c lot)...)...)    through the memoising lookup
@@ -9,12 +10,15 @@
 let c_of x = str_of_hex (atom x)
 let q_of n d = h_qmake (zatom n) (zatom d)
 
+let zopt x = if atom x = "-" then None else Some (zatom x)
+let dates_of xp xa pp pa = { x_prim = zatom xp; x_aux = zopt xa; p_prim = zopt pp; p_aux = zopt pa }
+
 let item_of = function
   | L [A "P"; w; s; n; d; t] -> Some (JItem (IP (zatom w, c_of s, q_of n d, c_of t)))
-  | L [A "C"; day; an; ad; ac; tot; cn; cd; cc; virt] ->
-    Some (JItem (ICost (zatom day, q_of an ad, c_of ac, batom tot, q_of cn cd, c_of cc, batom virt)))
-  | L [A "I"; day; xn; xd; xc; yn; yd; yc] ->
-    Some (JItem (IImplied (zatom day, q_of xn xd, c_of xc, q_of yn yd, c_of yc)))
+  | L [A "C"; xp; xa; pp; pa; an; ad; ac; tot; cn; cd; cc; virt] ->
+    Some (JItem (ICost (dates_of xp xa pp pa, q_of an ad, c_of ac, batom tot, q_of cn cd, c_of cc, batom virt)))
+  | L [A "I"; xp; xa; pp; pa; xn; xd; xc; yn; yd; yc] ->
+    Some (JItem (IImplied (dates_of xp xa pp pa, q_of xn xd, c_of xc, q_of yn yd, c_of yc)))
   | L [A "L"; s; t; d] -> Some (JLook (c_of s, c_of t, zatom d))
   | _ -> failwith "item"
 
